@@ -1865,8 +1865,10 @@ func (c *Conn) readHeaderField(hf *HeaderField, res *fasthttp.Response) error {
 			return fmt.Errorf("invalid response pseudo-header %q", hf.KeyBytes())
 		}
 
+		// A status code is three digits (RFC 7231 section 6): "0200" is a
+		// number in range and still not one.
 		n, err := parseUint(hf.ValueBytes())
-		if err != nil || n < 100 || n > 999 || c.hdrStatus != 0 {
+		if err != nil || len(hf.ValueBytes()) != 3 || n < 100 || n > 999 || c.hdrStatus != 0 {
 			return errInvalidStatus
 		}
 
